@@ -20,7 +20,8 @@ writing a constant entry".  Emitted (vocabulary: coq/Model/UsmOps.v), each expre
   usm_ip_of / usm_it_of        what the KickMap constructor hands to SourceMap for `_ip` / `_it`
   usm_gen_bound, usm_gen_offset_index   loop bound, the `_offset` entry iteration i reads
   usm_poffs                    the float sum (the size is halved in unsigned arithmetic first, then converted)
-  usm_qpint / usm_xip          integer / fractional part of std::modf
+  usm_qpint / usm_xip          the float whose conversion gives the stencil origin (integer part of poffs: std::modf, floor or
+                               trunc) / the offset handed to calcCoefficiants (the fractional part of std::modf in the source)
   usm_guard                    the guard as a function of the size and the float integer part
   usm_jd, usm_jd_defined, usm_conv_ok    the float -> unsigned conversion, its defined domain, and whether it is executed
                                under the guard only
@@ -328,6 +329,11 @@ def ev(n, st):
                 raise TranslateError("second argument of modf is not the address of a float local")
             st.env[tgt["referencedDecl"]["name"]] = V(F32, ("modf_int", p.e))
             return V(F32, ("modf_frac", p.e))
+        if fn in ("floor", "floorf", "trunc", "truncf") and len(ks) == 2:
+            p = ev(ks[1], st)
+            if p.ty != F32 or ctype(n) != F32:
+                raise TranslateError("%s is not the binary32 overload" % fn)
+            return V(F32, ("ffloor" if fn.startswith("floor") else "ftrunc", p.e))
         raise TranslateError("call of %s not understood" % fn)
     raise TranslateError("expression kind %s" % k)
 
@@ -735,7 +741,7 @@ def fc(e):
         return "(f32%s %s %s)" % (t[1:], fc(e[1]), fc(e[2]))
     if t == "fneg":
         return "(f32neg %s)" % fc(e[1])
-    if t in ("modf_int", "modf_frac"):
+    if t in ("modf_int", "modf_frac", "ffloor", "ftrunc"):
         return "(%s %s)" % (t, fc(e[1]))
     if t == "smc":
         return "(smc %s)" % zc(e[1])
@@ -943,16 +949,21 @@ def translate():
         raise TranslateError("expected exactly one unconditional calcCoefficiants call in the in-range branch")
     cf, cit = calls[0][1], calls[0][2]
 
-    # ---- naming: the modf argument, q, xip, jd, j0
-    everything = [guard, T, carg, cf, cit] + list(ent.values()) + list(off.values())
-    margs = set(t[1] for e in everything for t in subterms(e) if t[0] in ("modf_int", "modf_frac"))
-    if len(margs) != 1:
-        raise TranslateError("expected integer and fractional part of ONE float sum (std::modf), found %d" % len(margs))
-    P = margs.pop()
+    # ---- naming: q = the float whose conversion gives the origin (integer part of the float sum poffs), xip = the
+    #      offset handed to calcCoefficiants, jd, j0
+    INTPART = ("modf_int", "ffloor", "ftrunc")
+    if carg[0] not in INTPART:
+        raise TranslateError("the converted float is not the integer part (std::modf / floor / trunc) of a float sum")
+    Q, P = carg, carg[1]
     only_vars(P, ("kd", "o"), "the float sum poffs")
-    if any(t[0] in ("modf_int", "modf_frac", "f2u", "coef") for t in subterms(P)):
+    if any(t[0] in INTPART + ("modf_frac", "f2u", "coef") for t in subterms(P)):
         raise TranslateError("the float sum poffs is not a plain arithmetic expression")
-    m1 = {("modf_int", P): ("fvar", "q"), ("modf_frac", P): ("fvar", "xip")}
+    only_vars(cf, ("kd", "o"), "the offset handed to calcCoefficiants")
+    if any(t[0] in ("f2u", "coef") for t in subterms(cf)):
+        raise TranslateError("the offset handed to calcCoefficiants is not a float expression of the row's offset")
+    qp_text = fc(subst(Q, {P: ("app", "usm_poffs kd o")}))
+    xip_text = fc(subst(cf, {P: ("app", "usm_poffs kd o")}))
+    m1 = {Q: ("fvar", "q"), cf: ("fvar", "xip")}
     guard, T, carg, cf, cit = [subst(e, m1) for e in (guard, T, carg, cf, cit)]
     ent = {k: subst(e, m1) for k, e in ent.items()}
     off = {k: subst(e, m1) for k, e in off.items()}
@@ -1023,8 +1034,8 @@ def translate():
            "Definition usm_gen_offset_index (i : Z) : Z := %s." % zc(offidx),
            "(* poffs and std::modf *)",
            "Definition usm_poffs (kd : Z) (o : Qc) : Qc := %s." % fc(P),
-           "Definition usm_qpint (kd : Z) (o : Qc) : Qc := modf_int (usm_poffs kd o).",
-           "Definition usm_xip (kd : Z) (o : Qc) : Qc := modf_frac (usm_poffs kd o).",
+           "Definition usm_qpint (kd : Z) (o : Qc) : Qc := %s." % qp_text,
+           "Definition usm_xip (kd : Z) (o : Qc) : Qc := %s." % xip_text,
            "(* the guard; the float -> unsigned conversion and whether it is executed under the guard only *)",
            "Definition usm_jd (kd : Z) (q : Qc) : Z := fcvt_val %d %s." % (cbits, fc(carg)),
            "Definition usm_jd_defined (kd : Z) (q : Qc) : bool := fcvt_ok %d %s." % (cbits, fc(carg)),
